@@ -60,8 +60,10 @@ def gen_call(rng, idx):
     nout = min(n // 8, rng.choice([0, 1, 2, 3, 5]) if maxiter else rng.choice([0, 1, 2]))
     outl = sorted(rng.sample(interior, min(nout, len(interior))))
     clear = idx % 3 != 2
+    amps = []
     for i in outl:
         amp = rng.choice([12, 20, 40]) if clear else rng.choice([3, 5, 8, 12])
+        amps.append(amp)
         ys[i] += rng.choice([-1, 1]) * amp * sig[i]
     rest = [i for i in interior if i not in outl]
     zw = sorted(rng.sample(rest, min(len(rest), rng.randint(0, 4), max(0, n - (nseg + k - 1) - 2 * len(outl) - 4))))
@@ -91,7 +93,9 @@ def gen_call(rng, idx):
     perms.append(p)
     grid = [i / 4.0 for i in range(0, 4 * nseg + 1)]
     return {'x': xs, 'y': ys, 'w': ws, 'perms': perms, 'opts': opts, 'maxiter': maxiter, 'lower': lower, 'upper': upper,
-            'grid': grid, 'refit': maxiter >= 3, 'outliers': outl, 'zero_weight': zw, 'clear': clear, 'sigma': sigma}
+            'grid': grid, 'refit': maxiter >= 3, 'outliers': outl, 'zero_weight': zw, 'clear': clear, 'sigma': sigma,
+            # outliers that MUST be rejected: >= 20 sigma, not more heavily weighted than the bulk, low leverage
+            'must_reject': [i for i, a in zip(outl, amps) if a >= 20 and ws[i] <= 16.0 and n >= 3 * (nseg + k - 1)]}
 
 
 def case_term(c, r):
@@ -114,7 +118,7 @@ def correspond(ctx, proof_ok=True):
     if not ok:
         raise RuntimeError('C10/Model.v does not build:\n' + log[-2000:])
     rng = ctx.rng
-    ncalls = ctx.n(80, 1200)
+    ncalls = ctx.n(80, 500)
     calls = [gen_call(rng, i) for i in range(ncalls)]
     nb = 8
     outs = C.run_impl_parallel('c10_impl.py', [calls[i::nb] for i in range(nb)])
@@ -176,8 +180,8 @@ def correspond(ctx, proof_ok=True):
         if any(not m for m in orig_masks[0]):
             stats['rejecting'] += 1
         if c['clear'] and c['maxiter'] >= 1 and max(c['lower'], c['upper']) <= 5 and len(c['outliers']) <= 2:
-            if any(orig_masks[0][j] for j in c['outliers']):
-                viol('C10:iterfit:outlier-kept', 'a clear outlier (>= 12 sigma, limits <= 5 sigma) is still flagged True', c, r)
+            if any(orig_masks[0][j] for j in c['must_reject']):
+                viol('C10:iterfit:outlier-kept', 'a clear outlier (>= 20 sigma, limits <= 5 sigma, ordinary weight) is still flagged True', c, r)
         rf = r.get('refit')
         if rf is not None:
             if 'err' in rf and sum(1 for m in runs[0]['mask'] if m) <= c['opts']['nord']:
